@@ -947,7 +947,7 @@ class Executor:
         if res is False:
             r = self.check()
             model = self.solver.model() if r == z3.sat else None
-            st.update(status="violation", label="return-false", tape=self.model_tape(model) if model else None)
+            st.update(status="violation", label="return-false", tape=self.model_tape(model) if model is not None else None)
             return st
         res = simp(res)
         if res is True:
@@ -989,7 +989,7 @@ class Executor:
         if cond is False:
             r = self.check()
             m = self.solver.model() if r == z3.sat else None
-            self.asserts_failed.append((label, self.model_tape(m) if m else None))
+            self.asserts_failed.append((label, self.model_tape(m) if m is not None else None))
             raise PathEnd("violation", {"label": label, "tape": self.asserts_failed[-1][1], "where": self.where()})
         cond = simp(cond)
         if isinstance(cond, bool):
